@@ -1,6 +1,6 @@
 #!/usr/bin/env python3
 """curve_translator_demo.py — re-runs the demonstration of the SOURCE TRANSLATOR tie for the circle / ellipse primitives
-(tools/tr_curve.py; C05, C18, C06's areas).
+(tools/tr_curve.py; C05, C18, C06).
 
     python3 tools/tests/curve_translator_demo.py            # all cases, exit 0 iff every case behaves as recorded
     python3 tools/tests/curve_translator_demo.py --seeds    # instead: every seeded change under seeded/ that touches a
@@ -9,7 +9,7 @@
 For each case a small edit is applied to the Rust text of a SCRATCH COPY of /repo's `src` and `core/src` trees
 (/tmp/vw/curvegen-repo-<pid>, removed at the end; /repo itself is never touched, not even its .git), the translator
 regenerates `CurveSrc.lean` from it, and the theorems of lean/EG/Props/C05/GeneratedCircle.lean,
-lean/EG/Props/C05/GeneratedEllipse.lean and lean/EG/Props/C18/GeneratedCurves.lean are re-checked against the
+lean/EG/Props/C05/GeneratedEllipse.lean, lean/EG/Props/C18/GeneratedCurves.lean and lean/EG/Props/C06/GeneratedStyled.lean are re-checked against the
 regenerated file, in import order. Nothing inside the verif tree is written: the regenerated file and the .oleans live in
 a temp directory put in front of LEAN_PATH (requires an up-to-date `lake build` of the three modules, which the script
 runs first). When a module breaks, its last good build stands in for the import of the next one, so that each file
@@ -32,7 +32,7 @@ import tr_curve  # noqa: E402
 
 REPO = os.environ.get("EG_REPO", "/repo")
 LEAN = os.path.join(V, "lean")
-MODS = [("C05", "GeneratedCircle"), ("C05", "GeneratedEllipse"), ("C18", "GeneratedCurves")]
+MODS = [("C05", "GeneratedCircle"), ("C05", "GeneratedEllipse"), ("C18", "GeneratedCurves"), ("C06", "GeneratedStyled")]
 SCRATCH = os.environ.get("CURVE_DEMO_SCRATCH", f"/tmp/vw/curvegen-repo-{os.getpid()}")
 CM = "src/primitives/circle/mod.rs"
 CP = "src/primitives/circle/points.rs"
@@ -40,10 +40,20 @@ EM = "src/primitives/ellipse/mod.rs"
 EP = "src/primitives/ellipse/points.rs"
 SC = "src/primitives/common/scanline.rs"
 GE = "src/geometry/mod.rs"
+SS = "src/primitives/common/styled_scanline.rs"
+CS = "src/primitives/circle/styled.rs"
+ES = "src/primitives/ellipse/styled.rs"
 # files whose seeded changes this tie is responsible for (tr_rect's files have their own demo)
-SEED_FILES = [CM, CP, EM, EP, SC, GE]
+SEED_FILES = [CM, CP, EM, EP, SC, GE, SS, CS, ES]
 # seeded changes that touch one of these files only in code the part does not translate (styled drawing is tied elsewhere)
+_GENERIC = ("edits the generic `draw_styled<D>` (impl<C: PixelColor> StyledDrawable .. for Circle / Ellipse), which this part does "
+            "not translate (generic over colour and target; tied by the styled.* / faults.* streams): the generated text "
+            "changes in line numbers only")
+_DRAWSTROKE = ("edits the generic `StyledScanline::draw_stroke<T: DrawTarget>` (error propagation, C04's topic; listed in "
+               "CurveSrc.untranslated)")
 SEEDS_OUT_OF_SCOPE = {
+    "C01-3": _GENERIC, "C01-r4-1": _GENERIC, "C06-r4-2": _GENERIC,
+    "C04-1": _DRAWSTROKE, "C04-r3-2": _DRAWSTROKE,
     "C19-r3-1": "edits Scanline::bresenham_intersection (the triangle / polyline scanline code of C19), which is listed in "
                 "CurveSrc.untranslated; only Scanline::{new, new_empty, is_empty, next} are translated here",
 }
@@ -131,6 +141,29 @@ CASES = [
     ("ellipse Scanlines::new: fields of the struct literal reordered", "harmless", EP,
      "            rows: bounding_box.rows(),\n            columns: bounding_box.columns(),\n            center_2x: ellipse.center_2x(),\n",
      "            center_2x: ellipse.center_2x(),\n            columns: bounding_box.columns(),\n            rows: bounding_box.rows(),\n", []),
+    ("StyledScanline::new: an absent fill range collapses at the START of the stroke range", "mutation", SS,
+     "stroke_range.end..stroke_range.end", "stroke_range.start..stroke_range.start", ["StyledScanline_new_src_eq_model"]),
+    ("StyledScanline::stroke_right: starts at the fill START", "mutation", SS,
+     "self.fill_range.end..self.stroke_range.end", "self.fill_range.start..self.stroke_range.end",
+     ["StyledScanline_stroke_right_src_eq_model"]),
+    ("circle StyledScanlines::next: fill test `<=`", "mutation", CS,
+     "(delta.length_squared() as u32) < self.fill_threshold", "(delta.length_squared() as u32) <= self.fill_threshold",
+     ["CircleStyledScanlines_Iterator_next_src_eq_model"]),
+    ("circle StyledScanlines::new: fill threshold taken from the stroke area", "mutation", CS,
+     "fill_threshold: fill_area.threshold(),", "fill_threshold: stroke_area.threshold(),",
+     ["CircleStyledScanlines_new_src_eq_model"]),
+    ("ellipse StyledScanlines::next: the fill range is not mirrored", "mutation", ES,
+     ".map(|x| x..scanline.x.end - (x - scanline.x.start));", ".map(|x| x..scanline.x.end);",
+     ["EllipseStyledScanlines_Iterator_next_src_eq_model"]),
+    ("ellipse StyledScanlines::new: fill test of the stroke area's size", "mutation", ES,
+     "fill_area: EllipseContains::new(fill_area.size),", "fill_area: EllipseContains::new(stroke_area.size),",
+     ["EllipseStyledScanlines_new_src_eq_model"]),
+    ("circle StyledScanlines::next: closure parameter `scanline` renamed", "harmless", CS,
+     "        self.scanlines.next().map(|scanline| {\n            let fill_range = scanline\n                .x\n                .clone()\n                .find(|x| {\n                    let delta = Point::new(*x, scanline.y) * 2 - self.scanlines.center_2x;\n                    (delta.length_squared() as u32) < self.fill_threshold\n                })\n                .map(|x| x..scanline.x.end - (x - scanline.x.start));\n\n            StyledScanline::new(scanline.y, scanline.x, fill_range)\n        })",
+     "        self.scanlines.next().map(|line| {\n            let fill_range = line\n                .x\n                .clone()\n                .find(|x| {\n                    let delta = Point::new(*x, line.y) * 2 - self.scanlines.center_2x;\n                    (delta.length_squared() as u32) < self.fill_threshold\n                })\n                .map(|x| x..line.x.end - (x - line.x.start));\n\n            StyledScanline::new(line.y, line.x, fill_range)\n        })", []),
+    ("StyledScanline::new: the shadowing local renamed", "harmless", SS,
+     "        let fill_range = fill_range.unwrap_or_else(|| stroke_range.end..stroke_range.end);\n\n        Self {\n            y,\n            stroke_range,\n            fill_range,\n        }",
+     "        let fr = fill_range.unwrap_or_else(|| stroke_range.end..stroke_range.end);\n\n        Self {\n            y,\n            stroke_range,\n            fill_range: fr,\n        }", []),
     # outside the subset
     ("Circle::contains: a `for` loop", "unknown", CM,
      "        let delta = self.center_2x() - point * 2;\n", "        for _k in 0..1 {}\n        let delta = self.center_2x() - point * 2;\n", []),
@@ -153,6 +186,11 @@ def list_theorems(path):
         if m:
             out.append((m.group(1), i))
     return out
+
+
+def strip_lines(text):
+    """the generated text without the source line numbers it quotes"""
+    return re.sub(r"(line |\.rs:)\d+", r"\1N", text)
 
 
 def seed_cases():
@@ -238,7 +276,7 @@ def main():
                     continue
                 open(path, "w").write(src.replace(old, new))
             files, info = tr_curve.generate(SCRATCH)
-            unchanged = files["CurveSrc.lean"] == cur
+            unchanged = strip_lines(files["CurveSrc.lean"]) == strip_lines(cur)
             gen_dir = os.path.join(tmp, f"case{idx}")
             os.makedirs(os.path.join(gen_dir, "src", "EG", "Generated"))
             lib = os.path.join(gen_dir, "lib")
@@ -278,7 +316,7 @@ def main():
             if kind == "mutation":
                 ok = (not failed) and all(e in broken for e in expect)
             elif kind == "seed":
-                ok = len(broken) > 0 or name.split()[-1] in SEEDS_OUT_OF_SCOPE
+                ok = len(broken) > 0 or (unchanged and name.split()[-1] in SEEDS_OUT_OF_SCOPE)
                 how = "refused" if failed else ("theorem" if broken else ("untouched text" if unchanged else "MISSED"))
                 tally[how] = tally.get(how, 0) + 1
             elif kind == "harmless":
